@@ -116,6 +116,8 @@ pub fn re_concat(r1: RegLan, r2: RegLan) -> RegLan {
 /// assert!(str_in_re(&"abcXY".into(), c));
 /// ```
 pub fn re_concat_list(a: impl IntoIterator<Item = RegLan>) -> RegLan {
+    // collect first: the iterator may itself call functions of this module
+    let a: Vec<RegLan> = a.into_iter().collect();
     MANAGER.with(|m| m.borrow_mut().concat_list(a))
 }
 
@@ -153,6 +155,8 @@ pub fn re_union(r1: RegLan, r2: RegLan) -> RegLan {
 /// assert!(str_in_re(&"cccc".into(), u));
 /// ```
 pub fn re_union_list(a: impl IntoIterator<Item = RegLan>) -> RegLan {
+    // collect first: the iterator may itself call functions of this module
+    let a: Vec<RegLan> = a.into_iter().collect();
     MANAGER.with(|m| m.borrow_mut().union_list(a))
 }
 
@@ -189,6 +193,8 @@ pub fn re_inter(r1: RegLan, r2: RegLan) -> RegLan {
 /// assert!(str_in_re(&"aaaabb".into(), r));
 /// ```
 pub fn re_inter_list(a: impl IntoIterator<Item = RegLan>) -> RegLan {
+    // collect first: the iterator may itself call functions of this module
+    let a: Vec<RegLan> = a.into_iter().collect();
     MANAGER.with(|m| m.borrow_mut().inter_list(a))
 }
 
@@ -248,6 +254,8 @@ pub fn re_diff(r1: RegLan, r2: RegLan) -> RegLan {
 /// `re_diff_list(r, a)` is the same as `re_diff(r, re_inter_list(a))`
 ///
 pub fn re_diff_list(r: RegLan, a: impl IntoIterator<Item = RegLan>) -> RegLan {
+    // collect first: the iterator may itself call functions of this module
+    let a: Vec<RegLan> = a.into_iter().collect();
     MANAGER.with(|m| m.borrow_mut().diff_list(r, a))
 }
 
